@@ -173,7 +173,9 @@ def replay(cex):
     import random
     kind, n1, n2, n3 = d['kind'], d['n1'], d['n2'], d['n3']
     bad, notes = False, []
-    for seed in range(5):
+    if d.get('probe'):
+        bad_probe = False
+    for seed in range(5 if not d.get('probe') else 1):
         random.seed(seed)
         np.random.seed(seed)
         try:
@@ -201,7 +203,21 @@ def replay(cex):
                 notes.append('seed %d: second-side agent %d lists %s, the agents that find it acceptable are %s' % (seed, j, members, want))
         if bad:
             break
-    return bad, 'first-side lists %s (%s n1=%d n2=%d n3=%d)\n%s' % (lists, kind, n1, n2, n3, '\n'.join(notes) or 'all second-side lists correct')
+    if not bad and not d.get('probe'):
+        # the symbolic run treats ids as opaque boxed values; a concrete witness of an id-handling slip may need ids with
+        # several digits (>= 10) or ids that CPython does not intern (> 256): probe those sizes with fixed lists
+        probes = []
+        if kind == 'hr':
+            probes.append(('hr', 12, 2, 0, [[1]] * 11 + [[2]]))
+            probes.append(('hr', 11, 11, 0, [[11 - i] for i in range(11)]))
+        else:
+            probes.append(('spa', 12, 4, 2, [[1]] * 11 + [[4, 3]]))
+            probes.append(('spa', 2, 600, 300, [[513, 514, 1], [600, 599]]))
+        for (k2, a1, a2, a3, ls) in probes:
+            b2, t2 = replay({'data': {'kind': k2, 'n1': a1, 'n2': a2, 'n3': a3, 'lists': ls, 'probe': True}})
+            if b2:
+                return True, 'not visible on the small lists of the symbolic counterexample %s; shown on a probe with larger identifiers:\n%s' % (lists, t2)
+    return bad, 'first-side lists %s (%s n1=%d n2=%d n3=%d)\n%s' % (lists if len(str(lists)) < 200 else str(lists)[:200] + '...', kind, n1, n2, n3, '\n'.join(notes) or 'all second-side lists correct')
 
 
 def describe_task(t):
